@@ -615,9 +615,6 @@ func (a *AddrManager) changeRemark(dbTransaction db.DBTransaction, newRemark str
 			return err
 		}
 	}
-	a.mu.Lock()
-	a.remark = newRemark
-	a.mu.Unlock()
 	return nil
 }
 
